@@ -7,7 +7,17 @@ CONSTANTS
   MaxV = 2
   ShapeIds = {1, 2, 3, 4, 5, 6, 7, 8}
   S0s = {0, 65533}
-  Bases = {0, 1000000000}
+  BaseRegs = {"lo", "g1"}
+  TsShpNames = {"s1", "s2", "s3"}
+  TsRegsRtsp = {"lo", "m31", "x32"}
+  TsRegsPs = {"lo", "m31", "x32", "hi", "x33"}
+  TsRegsCust = {"lo", "m31", "x32", "x33", "ep"}
+  TsAudiosRtsp = {"none", "aac8000", "aac16000", "aac22050", "aac44100", "aac48000", "aac96000", "pcma8000", "pcmu8000", "opus48000"}
+  TsAudiosOther = {"none", "aac44100", "pcma8000", "opus48000"}
+  TsRtspCls = {"single", "agg", "fu"}
+  TsPsPk = {"p1", "p2", "p3", "p4", "p5", "p6", "p7", "p8", "p9"}
+  TsCustFmt = {"annexb", "avcc"}
+  TsS0s = {65533}
   Win = 3
   MaxPert = 1
   RtspCls = {"single", "agg", "fu"}
